@@ -182,6 +182,9 @@ func genNonPlanarByConstruction(t *rapid.T, maxN int) *oracle.G {
 }
 
 func genPlanarCase(t *rapid.T, maxN int, mode int) planarCase {
+	if mode < 2 && rare(t, "beyond64", 12) {
+		maxN = max(maxN, 130) // blocks with more than 64 vertices also in the quick tier
+	}
 	var g *oracle.G
 	expect := -1
 	switch mode {
@@ -230,12 +233,12 @@ func genPlanarCase(t *rapid.T, maxN int, mode int) planarCase {
 func isPlanarOf(what string, g *oracle.G, rep string) (bool, error) {
 	var gr graph.Graph
 	switch rep {
+	case "dense":
+		gr = denseOf(g)
 	case "sparse":
 		gr = sparseOf(g)
-	case "cocomp":
-		gr = graph.Complement(graph.Complement(denseOf(g)))
 	default:
-		gr = denseOf(g)
+		gr = reps(g)[rep]
 	}
 	var ans bool
 	if p := try(func() { ans = graph.IsPlanar(gr) }); p != nil {
@@ -270,7 +273,7 @@ func checkPlanarCase(c planarCase, rec *Rec) error {
 	}
 	rec.NonTrivial(bigBlock && g.M() <= 3*g.N-6)
 	rec.Labelf("n-%d", bucket(g.N))
-	for _, rep := range []string{"dense", "sparse", "cocomp"} {
+	for _, rep := range []string{"dense", "sparse", "cocomp", "induced-reversed", "induced-nested"} {
 		got, err := isPlanarOf("g", g, rep)
 		if err != nil {
 			return err
@@ -391,7 +394,7 @@ func enumIsoClassesPlanar(yield func(planarCase) bool) {
 
 func init() {
 	RegisterRapid("C11_planar_constructed",
-		"rapid: planar-by-construction graphs (random triangulations by face insertion + edge flips, thinned triangulations, grids, triangulated polygons (outerplanar), wheels/prisms/antiprisms, triangulations glued at a cut vertex, trees/cacti) with n <= 40 (quick) / 300 (thorough): IsPlanar must say true; the independent oracle must agree with the construction. Plus the metamorphic relations on each: 11 (thorough 31) uniform relabellings, subdividing up to 3 edges, adding pendant/isolated vertices, deleting an edge / a vertex of a planar graph, disjoint union with K4 (same answer) and with K5 (non-planar); dense, sparse and view inputs; any panic is a violation. Non-trivial: a block with >= 5 vertices and m <= 3n-6.",
+		"rapid: planar-by-construction graphs (random triangulations by face insertion + edge flips, thinned triangulations, grids, triangulated polygons (outerplanar), wheels/prisms/antiprisms, triangulations glued at a cut vertex, trees/cacti) with n <= 40 (quick; about one case in twelve up to 130) / 300 (thorough): IsPlanar must say true; the independent oracle must agree with the construction. Plus the metamorphic relations on each: 11 (thorough 31) uniform relabellings, subdividing up to 3 edges, adding pendant/isolated vertices, deleting an edge / a vertex of a planar graph, disjoint union with K4 (same answer) and with K5 (non-planar); dense, sparse and view inputs (complement of complement, a reversed induced-subgraph view, a view of a view); any panic is a violation. Non-trivial: a block with >= 5 vertices and m <= 3n-6.",
 		Budget{Checks: 500, Shards: 1}, Budget{Checks: 1500, Shards: 8},
 		func(t *rapid.T) planarCase { return genPlanarCase(t, sz(40, 300), 0) }, checkPlanarCase)
 	RegisterRapid("C11_nonplanar_constructed",
